@@ -43,6 +43,23 @@ let parse_query () =
   | "f2" -> QF2 (next_str ())
   | "f3" -> QF3 (z_of_dec (next ()))
   | "count" -> QCount
+  | "list" -> let sk = z_of_dec (next ()) in let li = z_of_dec (next ()) in QList (sk, li)
+  | "all" -> QAll
+  | "f4" -> QF4 (next_str ())
+  | "f5" -> QF5 (next_str ())
+  | "f6" -> QF6 (next_str ())
+  | "f7" -> QF7 (next_str ())
+  | "f8" -> QF8 (next_str ())
+  | "wcount" -> QWatchCount (z_of_dec (next ()))
+  | "notags" -> QNoTags
+  | "subhas" -> QSubHas (next_str ())
+  | "subcount" -> let g = next_str () in let n = z_of_dec (next ()) in QSubCount (g, n)
+  | "page" -> let v = z_of_dec (next ()) in let sk = z_of_dec (next ()) in let li = z_of_dec (next ()) in QPage (v, sk, li)
+  | "gname" -> QGItemsName (next_str ())
+  | "gtag" -> QGItemsTag (next_str ())
+  | "gwtag" -> QGWatchTag (next_str ())
+  | "gsub" -> QGSub (z_of_dec (next ()))
+  | "glist" -> let sk = z_of_dec (next ()) in let li = z_of_dec (next ()) in QGList (sk, li)
   | s -> failwith ("bad query " ^ s)
 
 let show_answer = function
